@@ -22,6 +22,8 @@ type PFeat struct {
 	Role  model.RoleType
 	Funcs []PFunc
 	Desc  string
+	// Partial: functions announced with "partial" on read ([0]) / write ([1])
+	Partial map[model.FunctionType][2]bool
 }
 
 // PEnt is an entity announced by a scripted peer.
@@ -49,6 +51,8 @@ type Peer struct {
 	Sends   int
 
 	probeCtr uint64 // counter of the post-fault probe read (scenario bookkeeping)
+	// ReverseEnts: complete discovery data lists the entities in reverse order
+	ReverseEnts bool
 }
 
 //go:norace
@@ -231,6 +235,13 @@ func (p *Peer) SendResult(req model.HeaderType, errNo uint) uint64 {
 func (p *Peer) DiscoveryData(ents []*PEnt, state *model.NetworkManagementStateChangeType, withFeatures bool) *model.NodeManagementDetailedDiscoveryDataType {
 	if ents == nil {
 		ents = p.Ents
+		if p.ReverseEnts {
+			// (the order of the entities in the data means nothing: children before parents)
+			ents = nil
+			for i := len(p.Ents) - 1; i >= 0; i-- {
+				ents = append(ents, p.Ents[i])
+			}
+		}
 	}
 	dd := &model.NodeManagementDetailedDiscoveryDataType{
 		SpecificationVersionList: &model.NodeManagementSpecificationVersionListType{
@@ -280,9 +291,15 @@ func (p *Peer) FeatureInfo(f *PFeat) model.NodeManagementDetailedDiscoveryFeatur
 		po := &model.PossibleOperationsType{}
 		if fn.R {
 			po.Read = &model.PossibleOperationsReadType{}
+			if f.Partial[fn.Fn][0] {
+				po.Read.Partial = &model.ElementTagType{}
+			}
 		}
 		if fn.W {
 			po.Write = &model.PossibleOperationsWriteType{}
+			if f.Partial[fn.Fn][1] {
+				po.Write.Partial = &model.ElementTagType{}
+			}
 		}
 		sf = append(sf, model.FunctionPropertyType{Function: util.Ptr(fn.Fn), PossibleOperations: po})
 	}
